@@ -42,7 +42,7 @@ ASSUMPTIONS = [
 NAME_POOL = [
     # (rendered text, expected factor expression)
     ("a", "a"), ("b", "b"), ("c", "c"), ("d", "d"), ("e", "e"), ("x1", "x1"), ("long_name", "long_name"),
-    ("`a b`", "a b"), ("`x+y`", "x+y"), ("`q:r`", "q:r"), ("f(a)", "f(a)"), ("log(x)", "log(x)"),
+    ("`a b`", "a b"), ("`x+y`", "x+y"), ("`q:r`", "q:r"), ("`a:b`", "a:b"), ("`b:a`", "b:a"), ("`a:b:c`", "a:b:c"), ("f(a)", "f(a)"), ("log(x)", "log(x)"),
     ("{a+b}", "a + b"), ("{ x * 2 }", "x * 2"), ("g(a, b)", "g(a, b)"), ("h( c )", "h(c)"), ("a.b", "a.b"),
     ("I(a**2)", "I(a ** 2)"), ("center(x1)", "center(x1)"), ("C(e, contr.treatment)", "C(e, contr.treatment)"),
 ]
